@@ -122,7 +122,8 @@ private def canonicalEnc (c : Cfg) (a : Nat) : Bool :=
 private def toTwos (w : Nat) (x : Int) : Nat := ofSigned w x
 
 private def srcParams (op : String) : Nat × Nat × Nat × Nat :=
-  if op == "fromf" || op == "rtf" || op == "toflt" then (ieeeF32_ebits, ieeeF32_fbits, ieeeF32_qnanmask, ieeeF32_snanmask)
+  if op == "fromld" || op == "rtld" || op == "told" then (ieeeF80_ebits, ieeeF80_fbits, ieeeF80_qnanmask, ieeeF80_snanmask)
+  else if op == "fromf" || op == "rtf" || op == "toflt" then (ieeeF32_ebits, ieeeF32_fbits, ieeeF32_qnanmask, ieeeF32_snanmask)
   else (ieeeF64_ebits, ieeeF64_fbits, ieeeF64_qnanmask, ieeeF64_snanmask)
 
 /-- bits of the native NaN the library produces in to_native (signaling_NaN / quiet_NaN) -/
@@ -141,6 +142,53 @@ private def fromClass (c : Cfg) (src : Val) (subnBranch : Bool) : String :=
     else if subnBranch then "cfloat.from_ieee.subnormal_source"
     else if c.sat && c.sup && overflows c m then "cfloat.sat_sup.maxpos_is_inf"
     else ""
+  | _ => ""
+
+/-- transcript pattern (sign | 15 | 63, implicit leading bit) of `std::numeric_limits<long double>::quiet_NaN()` /
+    `signaling_NaN()` on x86-64: significand 0xC000… / 0xA000… -/
+private def ldNativeBits (v : Val) : Nat :=
+  match v with
+  | .nan s => (0x7fff <<< 63) + (if s then 2 ^ 61 else 2 ^ 62)
+  | v => ieeeEncode 15 63 v
+
+/-- values of the es = 15 configurations have thousands of digits: messages are cut -/
+private def short (s : String) : String := if s.length > 200 then (s.take 190).toString ++ "…" else s
+
+/-- the narrowing path of convert_ieee754<long double> composes the encoding in a uint64_t: the model covers
+    nbits ≤ 64 there, and the block path (fbits ≥ 63, hence nbits ≥ 65) -/
+private def ldSupported (c : Cfg) : Bool := c.nbits ≤ 64 || c.fbits ≥ 63
+
+/-- classes of `fromld` lines (inputs only): long double source with raw exponent field `rawExp`, value `src` -/
+private def fromLdClass (c : Cfg) (rawExp : Nat) (src : Val) : String :=
+  match src with
+  | .fin _ m =>
+    if m = 0 then ""
+    else
+      let exponent : Int := (rawExp : Int) - 16383
+      let reached := exponent ≤ c.maxExp && exponent ≥ (if c.sub then c.minExpSubnormal - 1 else c.minExpNormal)
+      if rawExp == 0 then (if reached then "cfloat.from_ieee.subnormal_source" else "")
+      else if c.sub && reached && exponent < c.minExpNormal then
+        -- the value lies in the target's subnormal range
+        if c.fbits ≥ 63 then "cfloat.from_ld.wide_subnormal_target"
+        else if exponent == c.minExpSubnormal - 1 then "cfloat.from_ld.shift64"
+        else
+          let u := ulpAt c m
+          let q := m / u
+          if q - (q.floor : Rat) == 1/2 && q.floor % 2 == 0 then "cfloat.from_ld.hidden_mask" else ""
+      else if c.sat && c.sup && overflows c m then "cfloat.sat_sup.maxpos_is_inf"
+      else ""
+  | _ => ""
+
+/-- class of `told` lines: to_native<long double> builds 2^e with the double function ipow for |e| ≥ 64 and reads the
+    double table subnormal_exponent[es] (0.0 for es ≥ 12) -/
+private def toLdClass (c : Cfg) (a : Nat) : String :=
+  match cfVal c a with
+  | .fin _ x =>
+    if x == 0 then ""
+    else if c.expOf a == 0 then (if c.sub && c.es ≥ 12 then "cfloat.to_native.ld_beyond_double" else "")
+    else
+      let ex : Int := (c.expOf a : Int) - c.bias
+      if ex > 1023 || ex < -1074 then "cfloat.to_native.ld_beyond_double" else ""
   | _ => ""
 
 def cfloatHandler : Handler := fun lhs rhs => do
@@ -309,6 +357,66 @@ def cfloatHandler : Handler := fun lhs rhs => do
           | _ => (true, "")
         return { model := toHex m, specOk := ok, reason := why,
                  tag := op }   -- cfloat.to_int.via_float was repaired in /repo: no class, a wrong integer is a VIOLATION
+      | "told" =>
+        if a ≥ full then throw "operand out of range"
+        let mv := toNativeLD c a
+        let mstr := match mv with | .nan _ => "nan" | v => toHex (ieeeEncode eb fb v)
+        let want := cfVal c a
+        let holdable := match want with
+          | .fin _ x => x == 0 || ieeeVal eb fb (ieeeEncode eb fb want) == want
+          | _ => true
+        let got : Except String Val := match rs with
+          | "nan" => pure (.nan false)
+          | s => match parseHex s with | some h => pure (ieeeVal eb fb h) | none => throw "native bits"
+        let g ← got
+        let ok := match want, g with
+          | .nan _, .nan _ => true
+          | x, y => x == y
+        return { model := mstr, specOk := !holdable || ok, reason := short s!"value is {showVal want}" ++ short s!", long double result {showVal g}",
+                 cls := toLdClass c a,
+                 tag := op ++ "/" ++ (if !holdable then "not-holdable" else match want with | .nan _ => "nan" | .inf _ => "inf" | .fin _ x => if x == 0 then "zero" else
+                          (if toLdClass c a != "" then "beyond-double" else if c.fbits > 52 then "finite-wide" else "finite")),
+                 trivial := match want with | .fin _ x => x == 0 | _ => true }
+      | "rtld" =>
+        let some r := parseHex rs | throw "r"
+        if a ≥ full then throw "operand out of range"
+        if !ldSupported c then throw "configuration not covered by the long double model"
+        let nb := ldNativeBits (toNativeLD c a)
+        let m := fromLD c qm sm ieeeF80_hmask nb
+        let want := cfVal c a
+        let holdable := match want with
+          | .fin _ x => x == 0 || ieeeVal eb fb (ieeeEncode eb fb want) == want
+          | _ => true
+        let ok := r < full && (if canonicalEnc c a then r == a else match want, cfVal c r with
+          | .nan _, .nan _ => true
+          | x, y => x == y)
+        return { model := toHex m, specOk := !holdable || ok, reason := "round trip through long double does not return the encoding",
+                 cls := match want with
+                   | .nan s => if s then "cfloat.from_ld.nan_masks" else ""
+                   | .fin _ x => if x == 0 then "" else
+                                 if ieeeVal eb fb nb != want then toLdClass c a else
+                                 fromLdClass c ((nb >>> fb) % 2 ^ eb) want
+                   | _ => "",
+                 tag := op ++ "/" ++ (if !holdable then "not-holdable" else if canonicalEnc c a then "canonical" else "alias"),
+                 trivial := match want with | .fin _ x => x == 0 | _ => true }
+      | "fromld" =>
+        let some r := parseHex rs | throw "r"
+        if !ldSupported c then throw "configuration not covered by the long double model"
+        if a ≥ 2 ^ 79 then throw "long double pattern out of range"
+        let m := fromLD c qm sm ieeeF80_hmask a
+        let src := ieeeVal eb fb a
+        let e : Expect := match src with
+          | .nan _ => .nan
+          | .inf s => .inf s
+          | .fin s x => if x == 0 then .zero (some s) else .real (if s then -x else x)
+        let ok := satisfies c e r
+        let rawExp := (a >>> fb) % 2 ^ eb
+        -- does the source need more than binary64's 53 significant bits / lie outside its range?
+        let beyond := a % 2 ^ 11 != 0 || (rawExp != 0 && (rawExp < 16383 - 1022 || rawExp > 16383 + 1023))
+        return { model := toHex m, specOk := ok, reason := short ("expected " ++ showExpect c e) ++ (match e with | .real x => " = " ++ toHex (ieeeRound c x) | _ => ""),
+                 cls := fromLdClass c rawExp src,
+                 tag := op ++ "/" ++ expectTag c e ++ (match e with | .real _ => (if beyond then "/x64" else "/d53") | _ => ""),
+                 trivial := match e with | .real _ => false | _ => true }
       | "fromd" | "fromf" =>
         let some r := parseHex rs | throw "r"
         let m := fromIeee c eb fb qm sm a
